@@ -170,6 +170,13 @@ func (t *tLen) ts() string { return "len(" + t.X.ts() + ")" }
 func (t *tUnk) ts() string { return "?(" + t.Why + ")" }
 func (t *tErr) ts() string { return "error(" + t.Why + ")" }
 
+type sevEvent struct {
+	Kind string // "lit" (constant text written), "dyn" (non-constant text written), or the name given in eventFns
+	Text string
+	Args []tv
+	Loop int // nesting depth of symbolic loops at the time
+}
+
 type sevAbort struct{ Why string }
 type sevFork struct {
 	Key     string
@@ -229,6 +236,12 @@ type sev struct {
 	steps    int
 	hookTop  bool // the outermost call of a hook is inlined; nested calls are summarised
 	assumeOK map[string]bool
+	// event trace: calls of functions registered in eventFns and writes to byte/string sinks, in program order
+	events   []sevEvent
+	eventFns map[*types.Func]string
+	sink     string // name of the symbolic text sink whose writes are recorded
+	// functions not to look into (treated as uninterpreted functions of their arguments)
+	opaque func(*types.Func) bool
 	// identity(): accept a struct of a different named type with the identical underlying struct (a conversion wrapper)
 	looseNamed bool
 }
@@ -603,6 +616,58 @@ func (s *sev) callFn(fr *sevFrame, f *tFn, args []tv, packed bool, resT types.Ty
 		}
 		// a nodeJSON built some other way: decode it structurally
 	}
+	if sigR := fo.Type().(*types.Signature).Recv(); sigR != nil && !f.MethodExpr {
+		if _, isIface := types.Unalias(sigR.Type()).Underlying().(*types.Interface); isIface {
+			if dyn := s.dynType(recv); dyn != nil {
+				if _, dynIface := types.Unalias(dyn).Underlying().(*types.Interface); !dynIface {
+					sel := types.NewMethodSet(dyn).Lookup(fo.Pkg(), fo.Name())
+					if sel == nil {
+						sel = types.NewMethodSet(types.NewPointer(dyn)).Lookup(fo.Pkg(), fo.Name())
+					}
+					if sel != nil {
+						// walk to the embedded value that declares the method
+						base, t := recv, dyn
+						idx := sel.Index()
+						for _, ix := range idx[:len(idx)-1] {
+							st := structOf(t)
+							fld := st.Field(ix)
+							c := s.fieldCell(base, fld.Name(), fld.Type())
+							base, rc, t = c.v, c, fld.Type()
+						}
+						recv = base
+						fo = sel.Obj().(*types.Func).Origin()
+					}
+				}
+			}
+		}
+	}
+	if name, ok := s.eventFns[fo]; ok {
+		s.events = append(s.events, sevEvent{Kind: name, Args: append([]tv{}, args...), Loop: len(s.loops)})
+		sig := fo.Type().(*types.Signature)
+		if sig.Results().Len() == 0 {
+			return &tTuple{}
+		}
+		return &tCallU{Name: name, Args: args}
+	}
+	// text sinks: (*bytes.Buffer).Write*, (*strings.Builder).Write*
+	if fo.Pkg() != nil && (fo.Pkg().Path() == "bytes" || fo.Pkg().Path() == "strings") && strings.HasPrefix(fo.Name(), "Write") && len(args) == 1 && s.sink != "" && recv != nil && recv.ts() == s.sink {
+		ev := sevEvent{Kind: "dyn", Args: []tv{args[0]}, Loop: len(s.loops)}
+		if c, ok := args[0].(tConst); ok {
+			ev.Kind = "lit"
+			switch c.V.Kind() {
+			case constant.String:
+				ev.Text = constant.StringVal(c.V)
+			case constant.Int:
+				if n, ok := constant.Int64Val(c.V); ok {
+					ev.Text = string(rune(n))
+				}
+			}
+		} else {
+			ev.Text = args[0].ts()
+		}
+		s.events = append(s.events, ev)
+		return &tTuple{[]tv{&tCallU{Name: "n"}, tNil{}}}
+	}
 	wasTop := s.hookTop
 	s.hookTop = false
 	defer func() { s.hookTop = wasTop }()
@@ -632,7 +697,9 @@ func (s *sev) callFn(fr *sevFrame, f *tFn, args []tv, packed bool, resT types.Ty
 			s.abort("json.Unmarshal of %s", args[0].ts())
 		}
 	}
-	if immutableArgs(recv, args) && s.depth >= 1 {
+	if s.opaque != nil && s.opaque(fo) {
+		// fall through to the uninterpreted treatment below
+	} else if immutableArgs(recv, args) && s.depth >= 1 {
 		var res tv
 		aborted := ""
 		func() {
@@ -1040,7 +1107,18 @@ func (s *sev) eval(fr *sevFrame, e ast.Expr) tv {
 	case *ast.FuncLit:
 		s.abort("function literal")
 	case *ast.SliceExpr:
-		s.abort("slice expression")
+		base := s.deref(s.eval(fr, x.X))
+		if sym, ok := base.(*tSym); ok && !x.Slice3 {
+			lo, hi := "", ""
+			if x.Low != nil {
+				lo = s.eval(fr, x.Low).ts()
+			}
+			if x.High != nil {
+				hi = s.eval(fr, x.High).ts()
+			}
+			return &tSym{Name: sym.Name + "[" + lo + ":" + hi + "]", T: info.Types[e].Type}
+		}
+		s.abort("slice expression on %s", base.ts())
 	case *ast.KeyValueExpr:
 		s.abort("key-value outside literal")
 	}
@@ -1098,7 +1176,10 @@ func (s *sev) index(fr *sevFrame, base, idx tv, resT types.Type) (tv, tv) {
 	case *tSym:
 		if strings.HasPrefix(b.Name, "global:") {
 			s.note("assumed present: lookup of " + idx.ts() + " in " + b.Name)
-			return &tCallU{Name: b.Name + "[]", Args: []tv{idx}}, &tCallU{Name: "assumed-ok"}
+			return &tSym{Name: b.Name + "[" + idx.ts() + "]", T: resT}, &tCallU{Name: "assumed-ok"}
+		}
+		if c, ok := idx.(tConst); ok && !strings.HasPrefix(b.Name, "global:") {
+			return &tSym{Name: b.Name + "[" + c.ts() + "]", T: resT}, okT
 		}
 		// loop-index access to the ranged collection
 		for i := len(s.loops) - 1; i >= 0; i-- {
